@@ -178,9 +178,21 @@ func itoa(n int) string {
 // OriginLeaves reduces the origin of a value to the sorted set of its leaves — parameters (by index and type), globals,
 // constants — and of the field names and asserted types on the way. Callee names of intermediate calls are not part of
 // it, so extracting a helper, inlining one or renaming it leaves the set unchanged.
-func OriginLeaves(v ssa.Value) string {
+func OriginLeaves(v ssa.Value) string { return originLeaves(v, false) }
+
+// OriginLeavesVia is OriginLeaves plus the names of the functions the value passed through ("via:f").
+func OriginLeavesVia(v ssa.Value) string { return originLeaves(v, true) }
+
+func originLeaves(v ssa.Value, via bool) string {
 	m := map[string]bool{}
 	leavesOf(v, 0, map[ssa.Value]bool{}, m)
+	if !via {
+		for k := range m {
+			if strings.HasPrefix(k, "via:") {
+				delete(m, k)
+			}
+		}
+	}
 	ks := make([]string, 0, len(m))
 	for k := range m {
 		ks = append(ks, k)
@@ -252,6 +264,11 @@ func leavesOf(v ssa.Value, d int, seen map[ssa.Value]bool, out map[string]bool) 
 	case *ssa.Extract:
 		leavesOf(x.Tuple, d+1, seen, out)
 	case *ssa.Call:
+		if d > 0 {
+			if o := Callee(x); o != nil {
+				out["via:"+o.Name()] = true
+			}
+		}
 		if x.Call.IsInvoke() {
 			leavesOf(x.Call.Value, d+1, seen, out)
 		}
